@@ -52,36 +52,39 @@ fn c09_is_valid_duration() {
     assert!(got == vk_valid(f));
 }
 
-/// an integral double built as m * 2^e (m < 2^53, e <= emax): exact by construction, and its integer value is known
-/// without any float->int conversion on the oracle side
-fn vk_scaled(emax: u8) -> (FiniteF64, i128) {
-    let m: u64 = kani::any();
-    kani::assume(m < 9_007_199_254_740_992);
-    let e: u8 = kani::any();
-    kani::assume(e <= emax);
-    let neg: bool = kani::any();
-    let mag = (m as i128) << e;
-    let f = (m as f64) * ((1u64 << e) as f64);
-    if neg { (FiniteF64(-f), -mag) } else { (FiniteF64(f), mag) }
-}
-
-/// NormalizeTimeDuration: for every valid time duration the result is the exact total in nanoseconds.
-/// Fields range over all integral doubles m * 2^e with the exponent capped per field (hours < 2^53, ..., ns < 2^84):
-/// every valid duration whose fields have at most 53 significant bits is covered.
+/// NormalizeTimeDuration, one field at a time: a duration whose only non-zero field is an arbitrary integral double
+/// within that field's valid range normalises to exactly that many nanoseconds (no saturation, no rounding).
+// bounded: one non-zero field per harness (the full six-field product of f64->i128 conversions times out in CBMC)
 #[kani::proof]
-fn c06_from_time_duration() {
-    let (h, ih) = vk_scaled(0);
-    let (mi, imi) = vk_scaled(0);
-    let (s, is) = vk_scaled(1);
-    let (ms, ims) = vk_scaled(11);
-    let (us, ius) = vk_scaled(21);
-    let (ns, ins) = vk_scaled(31);
-    let t = TimeDuration::new_unchecked(h, mi, s, ms, us, ns);
-    let total = ((ih * 60 + imi) * 60 + is) * 1_000_000_000 + ims * 1_000_000 + ius * 1_000 + ins;
-    kani::assume(total.abs() < VK_LIMIT_NS);
-    kani::cover!(true);
+fn c06_from_time_duration_ns() {
+    let x: f64 = kani::any();
+    kani::assume(x.is_finite() && x == x.trunc() && x.abs() < 9.0e24);
+    let z = FiniteF64::default();
+    let t = TimeDuration::new_unchecked(z, z, z, z, z, FiniteF64(x));
+    kani::cover!(x > 1.0e19);
     let norm = NormalizedTimeDuration::from_time_duration(&t);
-    assert!(norm.0 == total);
+    assert!(norm.0 == x as i128);
+    assert!((norm.0 as f64) == x);
+}
+// bounded: one non-zero field per harness
+#[kani::proof]
+fn c06_from_time_duration_us() {
+    let x: f64 = kani::any();
+    kani::assume(x.is_finite() && x == x.trunc() && x.abs() < 9.0e21);
+    let z = FiniteF64::default();
+    let t = TimeDuration::new_unchecked(z, z, z, z, FiniteF64(x), z);
+    let norm = NormalizedTimeDuration::from_time_duration(&t);
+    assert!(norm.0 == (x as i128) * 1_000);
+}
+// bounded: one non-zero field per harness
+#[kani::proof]
+fn c06_from_time_duration_hours() {
+    let x: f64 = kani::any();
+    kani::assume(x.is_finite() && x == x.trunc() && x.abs() < 2.6e12);
+    let z = FiniteF64::default();
+    let t = TimeDuration::new_unchecked(FiniteF64(x), z, z, z, z, z);
+    let norm = NormalizedTimeDuration::from_time_duration(&t);
+    assert!(norm.0 == (x as i128) * 3_600_000_000_000);
 }
 
 // ---- F-bridge: the contracts Verus assumes on src/primitive.rs (specs/f64.rs), proved on the real methods ----
@@ -98,18 +101,8 @@ fn fb_as_date_value() {
     }
 }
 
-/// checked_add: integral a, b with |a|, |b|, |a + b| <= 2^53 -> the exact sum (no rounding, no error)
-#[kani::proof]
-fn fb_checked_add() {
-    let ia: i64 = kani::any();
-    let ib: i64 = kani::any();
-    kani::assume(ia.abs() <= 9_007_199_254_740_992 && ib.abs() <= 9_007_199_254_740_992 && (ia + ib).abs() <= 9_007_199_254_740_992);
-    let a = FiniteF64(ia as f64);
-    let b = FiniteF64(ib as f64);
-    let r = a.checked_add(&b);
-    assert!(r.is_ok());
-    assert!(r.unwrap().0 == (ia + ib) as f64);
-}
+// (checked_add on symbolic doubles does not terminate in CBMC within 10 min with any bundled SAT solver: the F-bridge
+// contract of FiniteF64::checked_add stays an assumption, listed in the evidence)
 
 /// negate / abs / is_zero on integral values
 #[kani::proof]
